@@ -16,6 +16,7 @@ import (
 	"testing"
 	"time"
 
+	"github.com/snower/slock/protocol"
 	"pgregory.net/rapid"
 )
 
@@ -138,7 +139,7 @@ func pRecover(c *aCase, dir string) (*pState, *vInst, error) {
 
 const pKeyStartupRace = "C07:startup-compaction-races-with-load"
 
-var pKnownStartupRace = vIsKnown(pKeyStartupRace)
+var pKnownStartupRace = vIsKnownSuffix("startup-compaction-races-with-load")
 
 const pMargin = 6 // seconds around the restart instant inside which a hold may or may not survive
 
@@ -226,19 +227,17 @@ func pEqualStates(a, b *pState, what string) error {
 			return fmt.Errorf("%s: hold %s recovered from the second image only\nfirst:\n%ssecond:\n%s", what, n, a, b)
 		}
 	}
-	for k, v := range a.Values {
-		av, _ := aDecodeFrame(v)
+	// values are compared for keys that are held in both states (the value of a key nobody holds may linger
+	// in memory until its manager is recycled and is never persisted on its own)
+	held := map[string]bool{}
+	for _, h := range a.Holds {
+		held[fmt.Sprintf("%d/%x", h.Db, h.Key[:2])] = true
+	}
+	for k := range held {
+		av, _ := aDecodeFrame(a.Values[k])
 		bv, _ := aDecodeFrame(b.Values[k])
 		if !aValueEqual(av, bv) {
 			return fmt.Errorf("%s: value of key %s differs between the two recoveries (%s vs %s)", what, k, av, bv)
-		}
-	}
-	for k, v := range b.Values {
-		if _, ok := a.Values[k]; !ok {
-			bv, _ := aDecodeFrame(v)
-			if bv != nil {
-				return fmt.Errorf("%s: value of key %s only in the second recovery", what, k)
-			}
 		}
 	}
 	return nil
@@ -535,3 +534,387 @@ func pDumpDir(dir string) string {
 	return sb.String()
 }
 
+
+// ---------------------------------------------------------------------------------------------
+// C08: crash at any byte of the newest append file (and of its value file)
+
+type c08Case struct {
+	H        aCase `json:"history"`
+	Offsets  []int `json:"offsets"`   // truncation offsets of the newest append file (-1 = every offset)
+	DatCuts  []int `json:"datcuts"`   // truncation offsets of its .dat file
+	After    []aOp `json:"after"`     // workload run after the recovery, before the second restart
+}
+
+type c08Info struct {
+	records   int
+	torn      int
+	header    int
+	datCuts   int
+	offsets   int
+	exhaustive bool
+}
+
+func c08Newest(dir string) (string, int) {
+	best, idx := "", -1
+	ents, _ := os.ReadDir(dir)
+	for _, e := range ents {
+		n := e.Name()
+		if strings.HasPrefix(n, "append.aof.") && !strings.HasSuffix(n, ".dat") {
+			var i int
+			if _, err := fmt.Sscanf(n, "append.aof.%d", &i); err == nil && i > idx {
+				best, idx = n, i
+			}
+		}
+	}
+	return best, idx
+}
+
+func c08Truncated(src string, file string, size int) (string, error) {
+	dst := vScratchDir("c08")
+	if err := vCopyDir(src, dst); err != nil {
+		return "", err
+	}
+	if err := os.Truncate(filepath.Join(dst, file), int64(size)); err != nil {
+		return "", err
+	}
+	if !strings.HasSuffix(file, ".dat") {
+		// Flush writes the records of a batch before their values, so the value file never holds blobs of records
+		// that are not in the record file: cut it back to the blobs of the complete records that remain.
+		keep := c08BlobBytes(filepath.Join(src, file), size)
+		if fi, err := os.Stat(filepath.Join(dst, file+".dat")); err == nil && int(fi.Size()) > keep {
+			if err := os.Truncate(filepath.Join(dst, file+".dat"), int64(keep)); err != nil {
+				return "", err
+			}
+		}
+	}
+	return dst, nil
+}
+
+// c08BlobBytes: number of value-file bytes that belong to the complete records within the first size bytes.
+func c08BlobBytes(recordFile string, size int) int {
+	b, err := os.ReadFile(recordFile)
+	if err != nil {
+		return 0
+	}
+	dat, _ := os.ReadFile(recordFile + ".dat")
+	pos := 0
+	for off := 12; off+64 <= len(b) && off+64 <= size; off += 64 {
+		aofFlag := int(b[off+55]) | int(b[off+56])<<8
+		if aofFlag&AOF_FLAG_CONTAINS_DATA != 0 {
+			if pos+4 > len(dat) {
+				return len(dat)
+			}
+			n := int(dat[pos]) | int(dat[pos+1])<<8 | int(dat[pos+2])<<16 | int(dat[pos+3])<<24
+			pos += 4 + n
+		}
+	}
+	if pos > len(dat) {
+		pos = len(dat)
+	}
+	return pos
+}
+
+func c08RecoverDir(c *aCase, dir string) (st *pState, inst *vInst, err error) {
+	defer func() {
+		if r := recover(); r != nil {
+			err = fmt.Errorf("panic during start: %v\n%s", r, vRepoFrames())
+		}
+	}()
+	return pRecover(c, dir)
+}
+
+// c08Run: history -> quiesce -> close; then per cut: recover(cut) == recover(cut floored to a record boundary),
+// and what is persisted after that restart is recovered by the following one.
+func c08Run(c *c08Case, next func(e *aEnv) []aOp) (info c08Info, err error) {
+	hc := &c.H
+	e, msg := pRunHistory(hc, next)
+	if e == nil {
+		return info, fmt.Errorf("%s", msg)
+	}
+	if msg != "" {
+		return info, fmt.Errorf("%s\n%s", msg, e.history())
+	}
+	hist := e.history()
+	base := vScratchDir("c08base")
+	cerr := vCopyDir(hc.DataDir, base)
+	e.close()
+	if cerr != nil {
+		return info, cerr
+	}
+	defer os.RemoveAll(base)
+	file, _ := c08Newest(base)
+	if file == "" {
+		return info, nil
+	}
+	fi, _ := os.Stat(filepath.Join(base, file))
+	size := int(fi.Size())
+	info.records = (size - 12) / 64
+	dfi, derr := os.Stat(filepath.Join(base, file+".dat"))
+	datSize := 0
+	if derr == nil {
+		datSize = int(dfi.Size())
+	}
+	floorCache := map[int]*pState{}
+	recoverAt := func(f string, sz int) (*pState, error) {
+		d, err := c08Truncated(base, f, sz)
+		if err != nil {
+			return nil, err
+		}
+		defer os.RemoveAll(d)
+		st, inst, err := c08RecoverDir(hc, d)
+		if err != nil {
+			return nil, err
+		}
+		inst.vClose(false, false)
+		return st, nil
+	}
+	offsets := c.Offsets
+	if len(offsets) == 1 && offsets[0] == -1 {
+		offsets = nil
+		for o := 0; o < size; o++ {
+			offsets = append(offsets, o)
+		}
+		info.exhaustive = true
+	}
+	for _, o := range offsets {
+		if o < 0 || o >= size {
+			continue
+		}
+		info.offsets++
+		floor := 0
+		if o >= 12 {
+			floor = 12 + (o-12)/64*64
+		}
+		if o < 12 {
+			info.header++
+		} else if o != floor {
+			info.torn++
+		}
+		want := floorCache[floor]
+		if want == nil {
+			w, err := recoverAt(file, floor)
+			if err != nil {
+				return info, fmt.Errorf("start on the log cut at record boundary %d failed: %v\n--- history ---\n%s", floor, err, hist)
+			}
+			want = w
+			floorCache[floor] = w
+		}
+		d, err := c08Truncated(base, file, o)
+		if err != nil {
+			return info, err
+		}
+		got, inst, err := c08RecoverDir(hc, d)
+		if err != nil {
+			os.RemoveAll(d)
+			return info, fmt.Errorf("start on the log cut at byte %d (record boundary %d, %d bytes of a torn record) failed: %v\n%s--- history ---\n%s", o, floor, o-floor, err, pDumpDir(base), hist)
+		}
+		if err := pEqualStates(want, got, fmt.Sprintf("log cut at byte %d vs. at record boundary %d", o, floor)); err != nil {
+			inst.vClose(false, false)
+			os.RemoveAll(d)
+			return info, fmt.Errorf("%v\n%s--- history ---\n%s", err, pDumpDir(base), hist)
+		}
+		// second phase: persist more after this restart, restart again
+		if len(c.After) > 0 {
+			if err := c08After(c, hc, inst, d, got, o); err != nil {
+				os.RemoveAll(d)
+				return info, fmt.Errorf("%v\n--- history ---\n%s", err, hist)
+			}
+		} else {
+			inst.vClose(false, false)
+		}
+		os.RemoveAll(d)
+	}
+	for _, dc := range c.DatCuts {
+		if datSize == 0 || dc < 0 || dc >= datSize {
+			continue
+		}
+		info.datCuts++
+		d, err := c08Truncated(base, file+".dat", dc)
+		if err != nil {
+			return info, err
+		}
+		got, inst, err := c08RecoverDir(hc, d)
+		os.RemoveAll(d)
+		if err != nil {
+			return info, fmt.Errorf("start with the value file cut at byte %d of %d failed: %v\n%s--- history ---\n%s", dc, datSize, err, pDumpDir(base), hist)
+		}
+		inst.vClose(false, false)
+		// the recovered state must be the state of SOME complete-record prefix of the newest file
+		ok := false
+		for k := info.records; k >= 0 && !ok; k-- {
+			want := floorCache[12+64*k]
+			if want == nil {
+				w, err := recoverAt(file, 12+64*k)
+				if err != nil {
+					return info, fmt.Errorf("start on the log cut at record %d failed: %v", k, err)
+				}
+				want = w
+				floorCache[12+64*k] = w
+			}
+			if pEqualStates(want, got, "") == nil {
+				ok = true
+			}
+		}
+		if !ok {
+			return info, fmt.Errorf("value file cut at byte %d of %d: the recovered state is not the state of any complete-record prefix\nrecovered:\n%s%s--- history ---\n%s", dc, datSize, got, pDumpDir(base), hist)
+		}
+	}
+	return info, nil
+}
+
+// c08After runs the post-recovery workload on the recovered instance, quiesces, and restarts once more.
+func c08After(c *c08Case, hc *aCase, inst *vInst, dir string, recovered *pState, cut int) error {
+	p := NewMemWaiterServerProtocol(inst.slock)
+	type rep struct{ result uint8 }
+	var replies []rep
+	_ = p.SetResultCallback(func(_ *MemWaiterServerProtocol, _ *protocol.LockCommand, result uint8, _ uint16, _ uint8, _ []byte) error {
+		replies = append(replies, rep{result})
+		return nil
+	})
+	for i, op := range c.After {
+		cmd := p.GetLockCommand()
+		cmd.Magic, cmd.Version, cmd.CommandType = protocol.MAGIC, protocol.VERSION, protocol.COMMAND_LOCK
+		cmd.RequestId = aReqId(90000 + i)
+		cmd.Flag, cmd.DbId, cmd.LockId, cmd.LockKey = 0, uint8(op.Db), aLockId(op.Id), aKey(op.Key)
+		cmd.TimeoutFlag, cmd.Timeout, cmd.ExpriedFlag, cmd.Expried = 0, 0, uint16(op.EF), uint16(op.E)
+		cmd.Count, cmd.Rcount, cmd.Data = uint16(op.Cnt), 0, nil
+		if msg := aSafe(nil, func() { _ = p.ProcessLockCommand(cmd) }); msg != "" {
+			inst.vClose(false, false)
+			return fmt.Errorf("after the restart on the log cut at byte %d: %s", cut, msg)
+		}
+	}
+	vAofIdle(inst.slock.aof)
+	inst.slock.aof.FlushWithLocked()
+	live := pSnapshot(inst.slock)
+	d2 := vScratchDir("c08b")
+	cerr := vCopyDir(dir, d2)
+	_ = p.Close()
+	inst.vClose(false, false)
+	defer os.RemoveAll(d2)
+	if cerr != nil {
+		return cerr
+	}
+	again, inst3, err := c08RecoverDir(hc, d2)
+	if err != nil {
+		return fmt.Errorf("second start (after persisting more on the log cut at byte %d) failed: %v", cut, err)
+	}
+	inst3.vClose(false, false)
+	want := &pState{Holds: map[string]*pHold{}, Values: live.Values}
+	for n, h := range live.Holds {
+		if h.IsAof {
+			want.Holds[n] = h
+		}
+	}
+	if err := pEqualStates(want, again, fmt.Sprintf("state persisted after the restart on the log cut at byte %d vs. the following restart", cut)); err != nil {
+		return fmt.Errorf("%v\n%s", err, pDumpDir(d2))
+	}
+	return nil
+}
+
+func c08Gen(t *rapid.T, thorough bool) (*c08Case, func(e *aEnv) []aOp) {
+	c := &c08Case{}
+	h := pGenCase(t, "C08")
+	h.EpochOff = 15
+	c.H = *h
+	n := rapid.IntRange(2, 16).Draw(t, "nOps")
+	fresh := 0
+	tail := rapid.IntRange(2, 5).Draw(t, "tailLocks")
+	gen := func(e *aEnv) []aOp {
+		hc := &c.H
+		if len(hc.Ops) >= n+tail {
+			return nil
+		}
+		var ops []aOp
+		if len(hc.Ops) >= n {
+			// make sure the newest file ends with a few complete records, some with value blobs
+			i := len(hc.Ops) - n
+			op := aOp{K: "lock", Db: 0, Key: 3, Id: 300 + i, E: 600 + i, EF: 0x0100, Cnt: 0xffff}
+			if rapid.IntRange(0, 1).Draw(t, "tailVal") == 1 && i == 0 {
+				op.V = &aVal{Op: "set", B: rapid.SliceOfN(rapid.Byte(), 1, 9).Draw(t, "tailPayload")}
+			}
+			ops = []aOp{op}
+		} else if rapid.IntRange(0, 99).Draw(t, "rotate") < 5 {
+			ops = []aOp{{K: "rotate"}}
+		} else {
+			ops = aGenOps(t, e, pProfile, &fresh)
+		}
+		hc.Ops = append(hc.Ops, ops...)
+		return ops
+	}
+	if thorough && rapid.IntRange(0, 3).Draw(t, "everyOffset") == 0 {
+		c.Offsets = []int{-1}
+	} else {
+		k := rapid.IntRange(6, 14).Draw(t, "nOffsets")
+		for i := 0; i < k; i++ {
+			switch rapid.IntRange(0, 9).Draw(t, "offClass") {
+			case 0:
+				c.Offsets = append(c.Offsets, rapid.IntRange(0, 12).Draw(t, "hdrOff"))
+			default:
+				rec := rapid.IntRange(0, 40).Draw(t, "rec")
+				res := rapid.IntRange(0, 63).Draw(t, "residue")
+				c.Offsets = append(c.Offsets, 12+64*rec+res)
+			}
+		}
+	}
+	for i := rapid.IntRange(0, 4).Draw(t, "nDatCuts"); i > 0; i-- {
+		c.DatCuts = append(c.DatCuts, rapid.IntRange(0, 200).Draw(t, "datCut"))
+	}
+	for i := rapid.IntRange(0, 3).Draw(t, "nAfter"); i > 0; i-- {
+		c.After = append(c.After, aOp{K: "lock", Db: 0, Key: 2, Id: 400 + i, E: 900 + i, EF: 0x0100, Cnt: 0xffff})
+	}
+	return c, gen
+}
+
+func TestC08_CrashCut(t *testing.T) {
+	st := vstat("TestC08_CrashCut")
+	rapid.Check(t, func(t *rapid.T) {
+		c, gen := c08Gen(t, vThorough())
+		info, err := c08Run(c, gen)
+		// records beyond the file are skipped at run time: remap offsets into the file for the statistics only
+		cls := []string{"fault_cases"}
+		if info.torn > 0 {
+			cls = append(cls, "torn record (residue != 0)")
+		}
+		if info.header > 0 {
+			cls = append(cls, "cut inside the 12-byte header")
+		}
+		if info.datCuts > 0 {
+			cls = append(cls, "value file cut")
+		}
+		if info.exhaustive {
+			cls = append(cls, "every byte offset of the newest file")
+		}
+		if len(c.After) > 0 {
+			cls = append(cls, "second workload + second restart")
+		}
+		st.Class("crash points", int64(info.offsets+info.datCuts))
+		st.Case(info.records >= 3 && (info.torn > 0 || info.datCuts > 0), vHash(c.H.fingerprint(), fmt.Sprint(c.Offsets, c.DatCuts, len(c.After))), cls, func() interface{} { return c })
+		if err != nil {
+			vFail(t, "TestC08_CrashCut", "C08:"+aViolKey(strings.SplitN(err.Error(), "\n", 2)[0]), c, "%v", err)
+		}
+	})
+}
+
+func TestC08_Replay(t *testing.T) {
+	for _, f := range vReplayFiles("C08") {
+		var c c08Case
+		key, err := vLoadReplay(f, &c)
+		if err != nil {
+			t.Fatalf("cannot load replay %s: %v", f, err)
+		}
+		c.H.Prop = "C08"
+		i := 0
+		_, rerr := c08Run(&c, func(e *aEnv) []aOp {
+			if i >= len(c.H.Ops) {
+				return nil
+			}
+			i++
+			return c.H.Ops[i-1 : i]
+		})
+		msg := ""
+		if rerr != nil {
+			msg = strings.SplitN(rerr.Error(), "\n", 2)[0]
+		}
+		fmt.Printf("VERIF-KF key=%s reproduced=%v file=%s %s\n", key, rerr != nil, f, msg)
+	}
+}
